@@ -358,7 +358,7 @@ pub fn migrate_step(
                 match bk.bids.get(id) {
                     Some(got) => {
                         if got.v2 {
-                            sim.flag(&["C15", "C14"], "C15.not_converted", kind, band, format!("event-log bid {} was not converted: the book is not preserved", id));
+                            sim.flag(&["C15", "C14", "C11"], "C15.not_converted", kind, band, format!("event-log bid {} was not converted: the book is not preserved", id));
                         } else if got != want {
                             let q = if got.unfilled() != want.unfilled() {
                                 "remaining_base"
